@@ -65,8 +65,8 @@ def showPc : PC → String
   | .dexit => "dexit" | .ddeq k acc => s!"ddeq {k} {acc}" | .dpush rem => s!"dpush {rem}"
 
 def relevant (pt : String) : Bool :=
-  pt.startsWith "JC_" || pt == "BLOCK_BEGIN" || pt == "BLOCK_CB_BEGIN" || pt == "BLOCK_CB_ENQ" ||
-  pt == "BLOCK_CB_END" || pt == "SPIN_WAKE_DEQ" || pt == "WAKE_DEQ" || pt == "WAKE_PUSH"
+  pt.startsWith "JC_" || pt == "BLOCK_BEGIN" || pt == "BLOCK_CB_BEGIN" || pt == "SQ_ENQ" ||
+  pt == "BLOCK_CB_END" || pt == "SQ_DEQ" || pt == "WAKE_PUSH"
 
 inductive Act where
   | step (l : Lbl)
@@ -87,14 +87,13 @@ def interp (o : Obj) (e : Driver.Ev) : Act :=
   | "BLOCK_CB_BEGIN", _ => match tb with
       | some t => .check (o.st.pc t == .annSw) s!"callback of t{t} starts with its context saved"
       | none => .bad "no thread"
-  | "BLOCK_CB_ENQ", _ => match tb with
+  | "SQ_ENQ", _ => match tb with          -- reported inside the queue's critical section
       | some t => .step (.cbEnq t)
       | none => .bad "no thread"
   | "BLOCK_CB_END", _ => .check true ""
-  | "SPIN_WAKE_DEQ", some t => .step (.wakeSpin t)
-  | "WAKE_DEQ", some t => match tb with
+  | "SQ_DEQ", some t => match tb with
       | some x => .step (.wakeDeq t x)
-      | none => .bad "no thread"
+      | none => if e.b == "-" then .step (.wakeSpin t) else .bad "no thread"
   | "WAKE_PUSH", some t => match tb with
       | some x => .step (.wakePush t x)
       | none => .bad "no thread"
@@ -128,7 +127,7 @@ def feed (acc : Acc) (line : String) : Acc :=
               let acc := if e.pt == "JC_WAIT_CAS" && e.v != 1 then { acc with waitCasFail := acc.waitCasFail + 1 } else acc
               let acc := if e.pt == "JC_WAIT_CAS" && e.v == 1 then { acc with blocked := acc.blocked + 1 } else acc
               let acc := if e.pt == "JC_DEC_CAS" && e.v != 1 then { acc with decCasFail := acc.decCasFail + 1 } else acc
-              let acc := if e.pt == "SPIN_WAKE_DEQ" then { acc with spins := acc.spins + 1 } else acc
+              let acc := if e.pt == "SQ_DEQ" && e.b == "-" then { acc with spins := acc.spins + 1 } else acc
               let acc := if e.pt == "JC_WAIT_READ" && st'.pc l.actor == .idle && o.st.pc l.actor != .woken then
                            { acc with immediate := acc.immediate + 1 } else acc
               acc
